@@ -130,7 +130,12 @@ def selection(ctx, rule='C04-R2'):
         notexcl = ('mcall', ('col', DATA, 'ceilo'), 'apply',
                    (('lam', 1, T.mk_not(('cmp', 'in', ('lamv', 0), EXCL))),), ())
         filt = T.mk_and([member, notexcl])
+        notexcl2 = T.mk_not(('mcall', ('col', DATA, 'ceilo'), 'isin', (EXCL,), ()))
+        filt2 = T.mk_and([member, notexcl2])
         for g, leaf in leaves:
+            if leaf == filt2:
+                leaf, filt_here = filt, filt2
+                g = T.subst(g, {filt2: filt})
             if leaf == member:
                 ctx.ok(rule, f"metarize('{which}'): selection = all member hits under {T.show(g, maxlen=60)}", m.loc())
             elif leaf == filt:
